@@ -340,6 +340,8 @@ def run(ctx, obl):
                        ["mode", "aio" if aio else "sep"], ["aio", Q(detgen.aio_file(pk["gofile"], "new"))],
                        ["types"] + [pk["tsexp"](t) for t in tys], ["edited"] + [pke["tsexp"](t) for t in tye],
                        ["alltypes"] + ([] if aio else [pk["tsexp"](t) for t in pk["all_types"]])]
+            if os.environ.get("VERIF_REPAIR"):
+                payload.append(["repair", os.environ["VERIF_REPAIR"]])
         else:
             payload = [["cmd", "simple"], ["mode", "aio" if aio else "sep"]]
         sexp = dump(["case", cid, "genhist"] + payload)
@@ -410,6 +412,8 @@ def run(ctx, obl):
                 v["sources"] = c["files"]
                 v["edited_sources"] = c.get("edited")
                 v["cmd"] = c["cmd"]
+    res.extra["finding_cases"] = [{"sig": v.get("sig"), "cmd": v.get("cmd"), "keys": v.get("differing_keys"),
+                                   "case": v["case"][:60]} for v in res.violations[:16]]
     res.hist("packages", "total", len(pks))
     res.extra["process_executions_per_point"] = nexec
     res.rule = ("generated packages (new: struct trees with cross embeds, -getset/-json, embedded types declared before or after their embedders; map incl. chains of "
